@@ -1105,7 +1105,7 @@ func (w *writersWorld) apply(f []string) string {
 			if os.Getenv("C06_DEBUG") != "" {
 				fmt.Fprintf(os.Stderr, "WARM %v\nCOLD %v\n", warm[d], cold[d])
 			}
-			return "diff:" + d
+			return "diff:" + d + staleCause(warm[d], cold[d])
 		}
 		return "eq"
 	}
@@ -1442,6 +1442,36 @@ func lastWriter(hist []string) string {
 		}
 	}
 	return "none"
+}
+
+// staleCause names the cause of a stale CDS answer when the differing field identifies it: "#stale-mx" = the two
+// clusters differ ONLY in the istio metadata flags disable_mx / external, which cluster generation derives from the
+// endpoint membership of the service (PushContext.AllInstancesSupportHBONE: instance index + live ambient index) while
+// no CDS cache entry declares endpoints (the cause recorded as known for C01: ...:CDS:stale-mx).
+func staleCause(a, b proto.Message) string {
+	ca, ok1 := a.(*clusterv3.Cluster)
+	cb, ok2 := b.(*clusterv3.Cluster)
+	if !ok1 || !ok2 {
+		return ""
+	}
+	strip := func(c *clusterv3.Cluster) *clusterv3.Cluster {
+		c = proto.Clone(c).(*clusterv3.Cluster)
+		if im := c.GetMetadata().GetFilterMetadata()["istio"]; im != nil {
+			delete(im.Fields, "disable_mx")
+			delete(im.Fields, "external")
+			if len(im.Fields) == 0 {
+				delete(c.Metadata.FilterMetadata, "istio")
+			}
+		}
+		if c.Metadata != nil && len(c.Metadata.FilterMetadata) == 0 {
+			c.Metadata = nil
+		}
+		return c
+	}
+	if proto.Equal(strip(ca), strip(cb)) {
+		return "#stale-mx"
+	}
+	return ""
 }
 
 func protoField(m proto.Message) string {
